@@ -489,7 +489,7 @@ func ruleC05_3(c *Ctx, r *Rep) {
 	// an error other than not-found is returned
 	okErr := false
 	for _, ret := range returnsOf(fn) {
-		if !returnsNilError(ret) && dependsOnCall(ret.Results[len(ret.Results)-1], term) {
+		if !returnsNilError(ret) && dependsOnCall(retLast(ret), term) {
 			okErr = true
 		}
 	}
